@@ -9,6 +9,10 @@ import (
 	"strings"
 )
 
+// tempFilePrefix is the prefix of files which are used to write a value.
+// Those files are not keys of the storage.
+const tempFilePrefix = ".tmp-"
+
 type fileStorage struct {
 	dirPath string
 }
@@ -34,19 +38,38 @@ func NewFileStorage(dir string) (Storage, error) {
 }
 
 // Set sets the value for a specific key.
+//
+// The value is written to a temporary file in the same directory, which then replaces the
+// file of the key. The file of a key always holds a complete value – either the previous
+// or the new one – even when the program is stopped while the value is written.
 func (f *fileStorage) Set(key string, value []byte) error {
 	verifCrashPoint("set:begin")
-	file, err := f.fileForWrite(key)
+	tmp := f.tempFilePathToFile(key)
+	file, err := os.OpenFile(tmp, os.O_WRONLY|os.O_CREATE|os.O_TRUNC, 0666)
 
 	if err != nil {
 		return err
 	}
-
-	defer file.Close()
-	verifCrashPoint("set:opened")
+	verifCrashPoint("set:tmp-created")
 
 	_, err = file.Write(value)
-	verifCrashPoint("set:written")
+	verifCrashPoint("set:tmp-written")
+	if err == nil {
+		err = file.Sync()
+	}
+	verifCrashPoint("set:tmp-synced")
+	if cerr := file.Close(); err == nil {
+		err = cerr
+	}
+	verifCrashPoint("set:tmp-closed")
+
+	if err != nil {
+		os.Remove(tmp)
+		return err
+	}
+
+	err = os.Rename(tmp, f.filePathToFile(key))
+	verifCrashPoint("set:renamed")
 	return err
 }
 
@@ -84,7 +107,7 @@ func (f *fileStorage) KeysWithSuffix(suffix string) (keys []string, err error) {
 
 	if infos, err = ioutil.ReadDir(f.dir()); err == nil {
 		for _, info := range infos {
-			if info.IsDir() == false && strings.HasSuffix(info.Name(), suffix) == true {
+			if info.IsDir() == false && strings.HasPrefix(info.Name(), tempFilePrefix) == false && strings.HasSuffix(info.Name(), suffix) == true {
 				keys = append(keys, info.Name())
 			}
 		}
@@ -103,8 +126,10 @@ func (f *fileStorage) filePathToFile(file string) string {
 	return filepath.Join(f.dir(), fname)
 }
 
-func (f *fileStorage) fileForWrite(key string) (*os.File, error) {
-	return os.OpenFile(f.filePathToFile(key), os.O_WRONLY|os.O_CREATE, 0666)
+// tempFilePathToFile returns the path of the temporary file which is used to write the value for key
+func (f *fileStorage) tempFilePathToFile(key string) string {
+	fname := removeInvalidFileNameCharacters(key)
+	return filepath.Join(f.dir(), tempFilePrefix+fname)
 }
 
 func (f *fileStorage) fileForRead(key string) (*os.File, error) {
